@@ -80,6 +80,12 @@ def run(conf, tier, seed, replay=None):
                         f.write(json.dumps(s) + "\n")
                         n += 1
                     log("Gen %s %s: %d scripts (%d states, %.1fs)" % (g["module"], cfg, len(seen), r.generated, r.wall))
+                    cov.setdefault("gen_runs", []).append({"module": g["module"], "cfg": cfg, "generated": r.generated,
+                                                           "distinct": r.distinct, "scripts": len(seen)})
+                    if not conf.get("mc"):
+                        # no separate MC step: the behaviour-generation model IS the explored model
+                        cov["states"] += r.distinct
+                        cov["transitions"] += r.generated
             if n == 0:
                 raise MachineryError("Gen produced no scripts")
             cov["gen_scripts"] = n
